@@ -1,5 +1,5 @@
 \* (E) exhaustive, as written: companion breakpoint before the slot allocation (watchpoint.rs:371-396)
-SPECIFICATION Spec
+SPECIFICATION SpecE
 CONSTANTS
   Globals = {"G0", "G1", "G2", "G3"}
   Locals = {"LA", "LB"}
